@@ -5,6 +5,7 @@ package main
 import (
 	"context"
 	"fmt"
+	"go/ast"
 	"go/types"
 	"sort"
 	"strings"
@@ -63,6 +64,29 @@ func (e *Env) invVars(fr *Frame) map[string]Value {
 		for _, fv := range f.fn.FreeVars {
 			if v, ok := f.regs[fv]; ok {
 				vars[fv.Name()] = v
+			}
+		}
+		// local variables by their source names (go/ssa debug references), when the value
+		// they denote has been computed; addressable locals denote their cell
+		for _, b := range f.fn.Blocks {
+			for _, ins := range b.Instrs {
+				d, ok := ins.(*ssa.DebugRef)
+				if !ok {
+					continue
+				}
+				id, ok := d.Expr.(*ast.Ident)
+				if !ok {
+					continue
+				}
+				ob, isVar := d.Object().(*types.Var)
+				if !isVar || ob.IsField() || d.IsAddr {
+					continue
+				}
+				if v, ok := f.regs[d.X]; ok {
+					if _, taken := vars[id.Name]; !taken {
+						vars[id.Name] = v
+					}
+				}
 			}
 		}
 	}
